@@ -303,8 +303,19 @@ func c03Prop(t *rapid.T) {
 	lbl := map[string]bool{}
 	var fp []string
 	nontrivial := false
+	var lastFailedInstall *world.ChartSpec
 	for i := 0; i < nops; i++ {
 		op := c03GenOp(t, len(w.History()) == 0, i+1)
+		// a failed install is often retried with --replace (the leftovers of the first attempt are adopted)
+		if h := w.History(); lastFailedInstall != nil && len(h) > 0 && h[len(h)-1].Status == "failed" && len(deployedRevs(h)) == 0 && rapid.Bool().Draw(t, "retryInstallReplace") {
+			op = &world.Op{Kind: "install", Replace: true, Atomic: rapid.Bool().Draw(t, "retryAtomic"), DisableHooks: rapid.Bool().Draw(t, "retryNoHooks"), Chart: *lastFailedInstall}
+			op.Chart.Version = i + 1
+			if rapid.Bool().Draw(t, "retryChanged") {
+				op.Chart.Resources = append([]world.Res(nil), op.Chart.Resources...)
+				op.Chart.Resources[0].Variant = (op.Chart.Resources[0].Variant + 1) % 3
+			}
+			lbl["retry-failed-install-with-replace"] = true
+		}
 		op.Fault = c03GenFault(t, w, op)
 		j.ops = append(j.ops, op)
 		preCluster := w.Cluster.Snapshot()
@@ -329,6 +340,10 @@ func c03Prop(t *rapid.T) {
 					nontrivial = true
 				}
 			}
+		}
+		if op.Kind == "install" && res.Err != nil && len(res.Post) > 0 && res.Post[len(res.Post)-1].Status == "failed" {
+			c := op.Chart
+			lastFailedInstall = &c
 		}
 		if j.judge(op, res, preCluster) {
 			lbl["cut-at-known-finding"] = true
